@@ -63,8 +63,10 @@ def check_run(acc, m, e, n, rep, unit, cont=None):
         n2, rep2 = cont
         T2 = dt * n2 if rep2 == 'mul' else float(dtF * n2)
         before = len(vals)
+        # every other continuation expresses dt and T in another time unit (same physical step)
+        cu = UNITS[(UNITS.index(unit) + 1 + (n + m) % 3) % 4] if (n + e) % 2 else unit
         try:
-            mod.run([dt, unit], [T2, unit])
+            mod.run([si.convert(dt, 'TimeInterval', unit, cu), cu], [si.convert(T2, 'TimeInterval', unit, cu), cu])
         except Exception as ex:
             acc.violation(f'C11/continuation-error/{type(ex).__name__}', 'continuation succeeds', case, {'exc': repr(ex)[:200]})
             return
@@ -74,7 +76,8 @@ def check_run(acc, m, e, n, rep, unit, cont=None):
         if vals2[:before] != vals:
             acc.violation('C11/continuation-rewrote-history', 'continuation appends', case, {})
             return
-        ok2 = judge(acc, case, vals2[before - 1:], vals[-1], dt, T2, n2, 'continuation', first=False)
+        ok2 = judge(acc, case, vals2[before - 1:], vals[-1], dt, T2, n2,
+                    'continuation' if cu == unit else 'continuation-other-unit', first=False)
         acc.outcomes[('continuation', ok2)] += 1
 
 
